@@ -250,6 +250,29 @@ def tifa_tree(a0: bool, a1: bool, a2: bool, b0: bool, b1: bool, b2: bool, c0: bo
         return _tree_cell(BINOPS[k1], BINOPS[k2], TREE_VALUES[ia], TREE_VALUES[ib], TREE_VALUES[ic], left_nested)
 
 
+CONTAINER_VALUES = [[], [1], ["s"], [1.5], 2, (), (1,), "a"]
+
+
+def container_tree(a0: bool, a1: bool, a2: bool, b0: bool, b1: bool, b2: bool, c0: bool, c1: bool, c2: bool,
+                   left_nested: bool) -> bool:
+    """
+    Depth-2 trees over CONTAINER operands - empty and non-empty lists of different element types, empty / one-element
+    tuples, an int and a str - with op1, op2 from {+, *} (partition "i,j"): concatenations that start from an empty
+    container, repetitions, and their mixes. Same oracle as tifa_tree.
+
+    pre: True
+    post: _
+    """
+    if tick():
+        return True
+    i, j = [int(x) for x in (PART or "0,0").split(",")]
+    ops = [b for b in BINOPS if b[0] in ("+", "*")]
+    a, b, c = CONTAINER_VALUES[bits(a0, a1, a2)], CONTAINER_VALUES[bits(b0, b1, b2)], CONTAINER_VALUES[bits(c0, c1, c2)]
+    left_nested = True if left_nested else False
+    with NoTracing():
+        return _tree_cell(ops[i], ops[j], a, b, c, left_nested)
+
+
 def _tree_cell(op1, op2, a, b, c, left_nested):
     (s1, _, f1), (s2, _, f2) = op1, op2
 
